@@ -10,8 +10,13 @@
     operations (`aut g` = `Automorphism(acc, g, acc)`, `mul j` = external product by the key of index `j`)
     the evaluator performs, in order.
   * the exponent semantics of a schedule (`runExp`): the accumulator holds `φ_t(F)·X^u`.
-  * the ciphertext-level execution on `RPoly` (key switching as coded, external products of
-    Model/RGSW.lean).
+  * the ciphertext-level execution on `RPoly` (`coreR` = `BlindRotateCore`, `evalSlot` = one slot of `Evaluate`: key
+    switching as coded, external products of Model/RGSW.lean).
+
+  Status (details in `Props/C20.lean`): schedule → exponent `b + ⟨a,s⟩` proved for all `N = 2^(k+1) ≥ 4` and all masks of
+  the model's mod-switch (`blindrot_exponent_model`); on `RPoly` values `blindrot_evalSlot_phase`; look-up at every exponent
+  `blindrot_lookup_all`; requested keys ⊆ generated `brk_keys_requested_subset`.  `gadgetProductR`/`automorphismR` (the key
+  switch inside the loop) and `scaleUp` (floats) are tied (`br_eval`, `br_core`, `testpoly`), without a general theorem.
 -/
 import Lattigo.Model.RGSW
 
@@ -194,13 +199,17 @@ def automorphismR (p : Par) (gks : List (Nat × List (RPoly × RPoly))) (g : Nat
       let ks := gadgetProductR p ct.2 kv.2
       (RPoly.aut (ks.1 + ct.1) g, RPoly.aut ks.2 g)
 
+/-- `Evaluator.BlindRotateCore(a, acc, BRK)` on ciphertexts: the schedule of the mask `a` executed with the key
+    switching automorphisms and the external products by the blind-rotation keys -/
+def coreR (p : Par) (gks : List (Nat × List (RPoly × RPoly))) (brk : List (Ct RPoly))
+    (a : List Nat) (acc : RPoly × RPoly) : RPoly × RPoly :=
+  runSteps (automorphismR p gks) (fun j ct => extProdR p ct (brk.getD j default)) (coreSchedule p.n a) acc
+
 /-- one slot of `Evaluator.Evaluate`: `acc = (φ_{2N−5}(F·X^b), 0)`, then `BlindRotateCore` -/
 def evalSlot (p : Par) (gks : List (Nat × List (RPoly × RPoly))) (brk : List (Ct RPoly))
     (F : RPoly) (a : List Nat) (b : Nat) : RPoly × RPoly :=
   let N := p.n
-  let acc0 : RPoly × RPoly :=
-    (RPoly.aut (RPoly.mulMonomial F b) (2 * N - galoisGen), RPoly.zero p.qsQ N)
-  runSteps (automorphismR p gks) (fun j ct => extProdR p ct (brk.getD j default)) (coreSchedule N a) acc0
+  coreR p gks brk a (RPoly.aut (RPoly.mulMonomial F b) (2 * N - galoisGen), RPoly.zero p.qsQ N)
 
 /-! ## Test polynomial -/
 
